@@ -104,6 +104,16 @@ def gen_session(rng, cfg):
             ops.append("DONE1 %d %d %s" % (k, rng.choice([0, 0, 1, 2, 3, 4]), "64303a206661696c6564"))
         else:
             ops.append("DONEALL %d %s %s" % (k, rng.choice(["0", "0", "0", "01", "1", "20", "3", "4"]), "64313a206572726f72"))
+    if rng.random() < 0.4 and 0 not in dropped and 0 not in gone:
+        # a status query over shuffled targets with most nodes reported (sorting / partition of the 302 lists, -x listing)
+        ops.append("DONEALL 0 0 2d")
+        t = list(nodes); rng.shuffle(t); t = t[:max(2, rng.randint(2, len(t)))] if len(t) >= 2 else t
+        if rng.random() < 0.3: ops.append("BYTES 0 %s" % b"exprange\r\n".hex())
+        ops.append("BYTES 0 %s" % ("%s %s\r\n" % (rng.choice(["status", "status", "beacon", "temp"]), ",".join(t))).encode().hex())
+        for n in t:
+            if rng.random() < 0.8:
+                ops.append("ARG 0 %s %d %d %s" % (n.encode().hex(), rng.choice([2, 2, 1, 0]), rng.choice([0, 0, 2]), rng.choice(["4f4e", "3432", "~", "6f6b0d0a323130"])))
+        ops.append("DONEALL 0 %s 2d" % rng.choice(["0", "0", "1"]))
     for k in range(ncli):
         if k in dropped:
             ops.append("DONE1 %d 0 2d" % k); continue
@@ -177,6 +187,90 @@ def protocol_monitor(out_bytes, nlines_sent):
     return bad, terminals
 
 
+C_SPACE = b" \t\n\v\f\r"
+TERM = __import__("re").compile(rb"(?:^|\r\n)(102|210|103|211|213|205|209|203|201|208) ")
+
+
+def impl_monitors(ops, il, linemax):
+    """property clauses evaluated on the IMPLEMENTATION's output of one R-CLIENT case, op by op (independent of the model):
+       isolation  an op addressed to client k writes to no other client                                   (C11)
+       length     a line whose stripped length is >= CP_LINEMAX is answered 203, a shorter one is not     (C06)
+       reply      a queued command ends 102/103 iff no injected completion failed (and, power commands, no Arg of it has
+                  RT_UNKNOWN), else 210/211; every failed completion prints a 308 line                    (C02 C03)"""
+    bad = []
+    blocks, cur = [], []
+    for l in il:
+        if l == "END": blocks.append(cur); cur = []
+        else: cur.append(l)
+    cmd = {}
+    for op, blk in zip(ops, blocks):
+        w = op.split()
+        if w[0] == "CONN": continue
+        k = int(w[1])
+        outs = {}
+        for l in blk:
+            if l.startswith("OUT "):
+                _, j, hx = l.split(); outs[int(j)] = outs.get(int(j), b"") + bytes.fromhex(hx)
+        for j in outs:
+            if j != k:
+                bad.append(("isolation", "foreign-output", "op `%s` (client %d) wrote %r to client %d" % (op[:60], k, outs[j][:80], j)))
+        mine = outs.get(k, b"")
+        flags = [l for l in blk if not l.startswith(("OUT ", "QUEUED"))]
+        for ln in mine.split(b"\r\n"):
+            m = __import__("re").match(rb"302 (?:on|off|unknown): +(\S+)$", ln)
+            if m:
+                try:
+                    names = pmgen.expand(m.group(1).decode("latin-1"))
+                except Exception:
+                    names = None
+                nat = lambda x: [(int(t) if t.isdigit() else t) for t in __import__("re").findall(r"\d+|\D+", x)]
+                if names is not None and all(__import__("re").fullmatch(r"[a-z]+\d+", x) for x in names) and names != sorted(names, key=nat):
+                    bad.append(("status-sets", "unsorted", "302 list not in host-list order: %r" % ln[:80]))
+        if w[0] == "BYTES" and "GONE" not in flags:
+            data = bytes.fromhex(w[2])
+            lines = data.split(b"\n")[:-1]
+            if len(lines) == 1:
+                sline = lines[0].split(b"\0")[0].strip(C_SPACE)
+                codes = [int(m.group(1)) for m in TERM.finditer(mine)]
+                if len(sline) >= linemax and codes[:1] != [203]:
+                    bad.append(("length-gate", "too-long-accepted", "a line of %d bytes (>= CP_LINEMAX) was answered %s" % (len(sline), codes)))
+                if len(sline) < linemax and 203 in codes:
+                    bad.append(("length-gate", "short-refused", "a line of %d bytes (< CP_LINEMAX) was answered 203" % len(sline)))
+                if any(l.startswith("QUEUED") for l in blk):
+                    wd = __import__("re").split(rb"[ \t\n\v\f\r]+", sline)[0].decode("latin-1")
+                    # sscanf formats are case-sensitive and need not be followed by a blank ("statusx" = status x)
+                    wd = next((x for x in ["status", "beacon", "temp", "unflash", "flash", "cycle", "reset", "off", "on"] if wd.startswith(x)), "?")
+                    cmd[k] = dict(word=wd, line=sline[:60], errs=0, unknown={}, skip=(wd == "?"))
+            elif any(l.startswith("QUEUED") for l in blk):
+                cmd[k] = dict(word="?", line=b"(pipelined)", errs=0, unknown={}, skip=True)
+        elif w[0] in ("DONE1", "DONEALL") and k in cmd and not flags:
+            c = cmd[k]
+            if w[0] == "DONE1":
+                if int(w[2]) != 0:
+                    c["errs"] += 1
+                    if b"308 " not in mine:
+                        bad.append(("errors-named", "no-308", "completion with error %s for `%s` printed no 308 line: %r" % (w[2], c["line"], mine[:80])))
+            else:
+                if w[2][0] != "0": c["errs"] += 1
+                elif set(w[2]) != {"0"}: c["skip"] = True
+            codes = [int(m.group(1)) for m in TERM.finditer(mine) if m.group(1) in (b"102", b"210", b"103", b"211")]
+            if codes:
+                if not c["skip"] and c["word"] != "?":
+                    power = c["word"] in pmgen.POWER_WORDS
+                    fail = c["errs"] > 0 or (power and any(c["unknown"].values()))
+                    want = (210 if fail else 102) if power else (211 if fail else 103)
+                    if codes[0] != want:
+                        clause = "false-success" if codes[0] in (102, 103) else "false-failure"
+                        bad.append((clause, "reply-%d" % codes[0], "`%s`: %d failed completion(s), RT_UNKNOWN on %s -> expected %d, got %d" %
+                                    (c["line"], c["errs"], sorted(n for n, u in c["unknown"].items() if u), want, codes[0])))
+                del cmd[k]
+        elif w[0] == "ARG" and k in cmd and not flags:
+            cmd[k]["unknown"][w[2]] = (w[4] == "1")
+        elif w[0] == "DROP":
+            cmd.pop(k, None)
+    return bad
+
+
 def proto_ops(impl_out):
     """PROTO <client> <hex of everything the implementation wrote to that client>"""
     streams = {}
@@ -201,7 +295,7 @@ def lines_sent(ops):
 def run(ctx, V):
     import pmcheck
     proofs_ok = vlib.proof_gate(ctx, V, extract=["Extract/ExClient.vo", "Extract/ExEnqueue.vo"])
-    correspond(ctx, V, n=250 if ctx.tier == "quick" else 5000)
+    correspond(ctx, V, n=400 if ctx.tier == "quick" else 8000)
     # whole daemon under ASan/UBSan with hostile client input
     exe = pmsim.build(ctx)
     n = 300 if ctx.tier == "quick" else 10000
@@ -257,6 +351,17 @@ def correspond(ctx, V, n):
               "Arg updates, telemetry and diagnostics); the real _parse_input/_act_finish/reply formatters are compared byte for byte with Model.Client and each "
               "client's stream is checked by the protocol monitor; non-trivial = a device command was queued; distinct by (config, ops)")
     cases = []
+    # corpus first: cases that once disagreed / violated (the configuration is regenerated from its recorded seed)
+    import glob, random
+    for f in sorted(glob.glob(os.path.join(vlib.VERIF, "corpus", "C*", "*.json"))):
+        if os.path.basename(os.path.dirname(f)) not in ("C02", "C03", "C06", "C11", "C15"):
+            continue
+        try:
+            c = json.load(open(f))
+            if "seed" not in c or "ops" not in c: continue
+            cases.append((pmgen.gen_variant_config(random.Random(c["seed"])), list(c["ops"]))); V.count("corpus")
+        except (ValueError, KeyError):
+            continue
     for i in range(n):
         cfg = pmgen.gen_variant_config(ctx.rng)
         add_aliases(ctx.rng, cfg)
@@ -284,6 +389,8 @@ def correspond(ctx, V, n):
         if rc != 0:
             V.violation("daemon-dies", "client-layer rc=%d" % rc, dict(config=cfg.text(), ops=ops, stderr=e[-800:]), "client input / completion history kills the client layer")
             continue
+        for clause, site, detail in impl_monitors(ops, il, consts["CP_LINEMAX"]):
+            V.violation(clause, site, dict(config=cfg.text(), ops=[o[:300] for o in ops]), detail)
         sent, dropped_k = lines_sent(ops)
         for k, sbytes in streams.items():
             r = protocol_monitor(sbytes, 0)
